@@ -96,6 +96,16 @@ def miri_sb_jobs(pid, tier, write="all", quick_seeds=32, thorough_seeds=512):
             {"name": "%s.miri.sb.preempt" % pid, "flavour": "miri", "args": ["sb", "write=" + write, "rounds=%d" % T(tier, 3, 4)], "miri_seeds": n // 2, "timeout": 900}]
 
 
+def cross_jobs(pid, tier, profile):
+    """Reach that every check over the core machinery gets regardless of its own operation profile (third round of seeded changes: changes filed under
+    one property needed several containers, the counter wrap or a thread exit to show): the multi-container profile and the wrap workload with its
+    scripted full-cycle scenarios, both TOKEN-scheduled."""
+    js = [{"name": pid + ".x.wrap.token", "flavour": "native", "args": ["wrap", "mode=token", "reps=1", "nshards=1"], "shards": 1, "threads": 3, "timeout": 1200}]
+    if profile != "c12":
+        js.append(core_token(pid + ".x.c12.token", "c12", T(tier, 1200, 30000), shards=2))
+    return js
+
+
 def plan_core(pid, profile, level_text, extra_jobs=None, required=WINDOW_PATHS, asan=True, memcheck=False):
     def jobs(tier, seed):
         js = [
@@ -121,8 +131,9 @@ def plan_core(pid, profile, level_text, extra_jobs=None, required=WINDOW_PATHS, 
         # cross-cutting reach every core check gets (second round of seeded changes: a change is filed under the property it breaks, not under
         # the mechanism it touches): thread start / exit / node adoption under the token, and the Weak kind (empty value = dangling Weak <-> null)
         names = set(j["name"] for j in js)
+        js += cross_jobs(pid, tier, profile)
         if pid + ".life.token" not in names:
-            js.append(life_job(pid + ".life.token", "token", execs=T(tier, 400, 20000), profile=profile))
+            js.append(life_job(pid + ".life.token", "token", execs=T(tier, 1000, 30000), profile=profile))
         if pid + ".weak.token" not in names:
             js.append(core_token(pid + ".weak.token", profile, T(tier, 800, 30000), alloc="real", extra=["val=weak"]))
         return js
@@ -233,7 +244,7 @@ PLANS["C02"] = plan_core("C02", "c02", "conservation law at quiescent points", m
                              # exact accounting when a pointee destructor / clone / closure panics (second-round seed C02y)
                              {"name": "C02.panic.seq", "flavour": "native", "args": ["panic", "mode=seq", "execs=%d" % T(tier, 800, 20000), "cap=8"], "shards": 2, "threads": 1, "timeout": 1200}])
 PLANS["C03"] = plan_core("C03", "c03", "history linearizability", asan=False,
-                         extra_jobs=lambda tier, seed: [life_job("C03.life.token", "token", execs=T(tier, 400, 20000), profile="c03"), miri_core_job("C03", "c03", tier)] + miri_sb_jobs("C03", tier))
+                         extra_jobs=lambda tier, seed: [life_job("C03.life.token", "token", execs=T(tier, 1000, 30000), profile="c03"), miri_core_job("C03", "c03", tier)] + miri_sb_jobs("C03", tier))
 PLANS["C04"] = plan_core("C04", "c04", "chain / conservation of writes", asan=False, extra_jobs=lambda tier, seed: [miri_core_job("C04", "c04", tier, 4, 96)] + miri_sb_jobs("C04", tier, quick_seeds=16, thorough_seeds=256), required=["load.fast_confirmed", "load.fallback_confirmed", "write.helped_reader"])
 PLANS["C05"] = plan_core("C05", "c05", "compare-and-swap histories", asan=False, extra_jobs=lambda tier, seed: [miri_core_job("C05", "c05", tier, 4, 96), core_token("C05.weak.token", "c05", T(tier, 800, 30000), alloc="real", extra=["val=weak"])] + miri_sb_jobs("C05", tier, "cas"), required=["cas.internal_retry", "load.fallback_confirmed"])
 PLANS["C06"] = plan_core("C06", "c06", "rcu histories", asan=False, extra_jobs=lambda tier, seed: [miri_core_job("C06", "c06", tier, 4, 96)] + miri_sb_jobs("C06", tier, "rcu"), required=["rcu.retried", "load.fallback_confirmed"])
@@ -243,7 +254,7 @@ def dual_jobs(tier):
             {"name": "C12.dual.quarantine", "flavour": "native", "args": ["dual", "alloc=quarantine", "execs=%d" % T(tier, 1500, 60000)], "shards": 4, "threads": 3, "timeout": 2400}]
 
 
-PLANS["C12"] = plan_core("C12", "c12", "per-container histories", asan=False, extra_jobs=lambda tier, seed: [miri_core_job("C12", "c12", tier, 4, 96), life_job("C12.life.token", "token", execs=T(tier, 400, 20000), profile="c12")] + dual_jobs(tier), required=WINDOW_PATHS + ["write.help_other_storage"])
+PLANS["C12"] = plan_core("C12", "c12", "per-container histories", asan=False, extra_jobs=lambda tier, seed: [miri_core_job("C12", "c12", tier, 4, 96), life_job("C12.life.token", "token", execs=T(tier, 1000, 30000), profile="c12")] + dual_jobs(tier), required=WINDOW_PATHS + ["write.help_other_storage"])
 PLANS["C07"] = plan_c07()
 
 
@@ -282,7 +293,7 @@ def plan_c10():
     core_jobs = base["jobs"]
     base["jobs"] = lambda tier, seed: core_jobs(tier, seed)[:3] + life_jobs("C10", tier) + [
         core_token("C10.weak.token", "c10", T(tier, 800, 30000), alloc="real", extra=["val=weak"]),
-        life_job("C10.life.token.weak", "token", execs=T(tier, 300, 15000), alloc="real", val="weak")]
+        life_job("C10.life.token.weak", "token", execs=T(tier, 300, 15000), alloc="real", val="weak")] + cross_jobs("C10", tier, "c10")
     base["rule"] = LIFE_RULE
     base["required"] = core_required(WINDOW_PATHS + ["node.reused", "life.tls_gone_ops", "life.threads_created"])
     return base
@@ -300,7 +311,7 @@ def plan_c11():
         return e
     return {
         "level": "exploration",
-        "jobs": lambda tier, seed: life_jobs("C11", tier) + [life_job("C11.life.free.tsan", "free", secs=T(tier, 4, 60), flavour="tsan", alloc="real", shards=2)]
+        "jobs": lambda tier, seed: life_jobs("C11", tier) + cross_jobs("C11", tier, "c10") + [life_job("C11.life.free.tsan", "free", secs=T(tier, 4, 60), flavour="tsan", alloc="real", shards=2)]
         + [dict(life_job("C11.life.token.wide", "token", execs=T(tier, 150, 10000)), args=["life", "profile=c10", "mode=token", "alloc=quarantine", "val=tp", "execs=%d" % T(tier, 150, 10000), "wide=1"], threads=8, shards=2)],
         "rule": LIFE_RULE,
         "evidence": ev,
@@ -532,7 +543,10 @@ def plan_c17():
             {"name": "C17.access.free", "flavour": "native", "args": ["access", "mode=free", "execs=%d" % T(tier, 3000, 200000)], "shards": 3, "threads": 5, "timeout": 2400},
             {"name": "C17.access.free.asan", "flavour": "asan", "args": ["access", "mode=free", "execs=%d" % T(tier, 1500, 100000)], "shards": 3, "threads": 5, "timeout": 2400},
             {"name": "C17.access.miri", "flavour": "miri", "args": ["access", "mode=free", "execs=%d" % T(tier, 2, 3)], "miri_seeds": T(tier, 8, 128), "timeout": 1500},
-        ] + miri_sb_jobs("C17", tier)
+        ] + miri_sb_jobs("C17", tier) + cross_jobs("C17", tier, "c03") + [
+            # the machinery under the projections: empty values, thread exit / node adoption (a projection guard is a guard)
+            core_token("C17.x.core.token", "c01", T(tier, 1200, 30000), shards=2),
+            life_job("C17.x.life.token", "token", execs=T(tier, 1000, 30000), profile="c03")]
 
     def ev(merged, results):
         c = merged["counters"]
